@@ -834,7 +834,7 @@ static int ec_substitute(char *loc, char *cmd, char *arg, char *txt)
 			sbuf_mem(r, ln, offs[0]);
 			replace(r, xrep, ln, offs);
 			ln += offs[1];
-			if (offs[1] <= 0) {	/* zero-length match */
+			if (offs[1] <= offs[0]) {	/* zero-length match */
 				int l = MAX(1, uc_len(ln));
 				sbuf_mem(r, ln, l);
 				ln += l;
